@@ -91,7 +91,7 @@ class Undecided(Exception):
 # ------------------------------------------------------------------------------------------------
 # Kani
 # ------------------------------------------------------------------------------------------------
-CHECK_RE = re.compile(r"^Check (\d+): (\S+)\n\s+- Status: (\S+)\n\s+- Description: \"(.*)\"\n\s+- Location: (.*)$",
+CHECK_RE = re.compile(r"^Check (\d+): (.*)\n\s+- Status: (\S+)\n\s+- Description: \"(.*)\"\n\s+- Location: (.*)$",
                       re.M)
 
 
